@@ -167,6 +167,52 @@ theorem foreignOK_of_cover (cfg : Cfg S) (F : List S) (evs : List (Ev S)) : ∀ 
         simp only [Bool.not_true, Bool.false_or]
         exact List.any_eq_true.2 ⟨s, this, hh⟩
 
+/-! ## unconditional corollaries: runs without inline suppressions -/
+
+/-- without `--inline-suppr` nothing is ever added: what earlier files leave behind is the start list -/
+theorem stateAfter_supprs_no_inline (cfg : Cfg S) (analyze : α → Trace S) (init : State S) (pre : List α)
+    (hno : ∀ g, supprsOf (analyze g).evs = []) :
+    ∀ s, s ∈ (stateAfter cfg analyze init pre).supprs → s ∈ init.supprs := by
+  intro s hs
+  rcases stateAfter_supprs_origin cfg analyze pre init s hs with h | ⟨g, _, h⟩
+  · exact h
+  · rw [hno g] at h; cases h
+
+/-- **no inline suppressions** (a run without `--inline-suppr`), code of record (`clear()` at the start): H1, H2 and H5 are
+    discharged for every prefix, every file, every analysis function and every matcher; what remains are the two "stale map"
+    hypotheses H3 / H4 about findings a file reports before it has set its own location macros / remark comments. -/
+theorem independent_without_inline_suppr [DecidableEq S] (cfg : Cfg S) (analyze : α → Trace S) (init : State S)
+    (pre : List α) (f : α) (hclear : cfg.clearAtStart = true) (hno : ∀ g, supprsOf (analyze g).evs = [])
+    (h3 : staleMacrosOK (stateAfter cfg analyze init pre).locMacros init.locMacros (analyze f).evs = true)
+    (h4 : staleRemarksOK (stateAfter cfg analyze init pre).remarks init.remarks (analyze f).evs = true) :
+    findingsOfLast (runSingle cfg analyze init (pre ++ [f])) = findingsOfLast (runSingle cfg analyze init [f]) := by
+  apply file_result_independent
+  simp only [Indep, Bool.and_eq_true]
+  refine ⟨⟨⟨⟨?_, ?_⟩, h3⟩, h4⟩, leakOK_repaired cfg _ _ _ hclear⟩
+  · exact foreignOK_of_cover cfg _ _ _ _ (fun s hs _ _ _ _ => stateAfter_supprs_no_inline cfg analyze init pre hno s hs)
+  · simp [sameOK, hno f]
+
+/-- a trace in which the file sets its location macros and its remark comments before it reports anything -/
+def ordered (tr : Trace S) : Bool := (preMacroReports tr.evs).isEmpty && (preRemarkReports tr.evs).isEmpty
+
+/-- **fully unconditional for well-ordered analyses**: code of record, no inline suppressions, every file sets its own maps
+    before its first report — then every run, of any length and in any order, is the list of the alone results, and
+    (`shown_nonWP_eq_dedup_alone`) prints the concatenation of the alone outputs with repeated texts removed. -/
+theorem run_independent_without_inline_suppr [DecidableEq S] (cfg : Cfg S) (analyze : α → Trace S) (init : State S)
+    (files : List α) (hclear : cfg.clearAtStart = true) (hno : ∀ g, supprsOf (analyze g).evs = [])
+    (hord : ∀ g, ordered (analyze g) = true) :
+    runSingle cfg analyze init files = files.map (fun f => (checkFile cfg init (analyze f)).2) := by
+  apply run_eq_map_alone
+  intro pre f post _
+  have ho := hord f
+  simp only [ordered, Bool.and_eq_true, List.isEmpty_iff] at ho
+  simp only [Indep, Bool.and_eq_true]
+  refine ⟨⟨⟨⟨?_, ?_⟩, ?_⟩, ?_⟩, leakOK_repaired cfg _ _ _ hclear⟩
+  · exact foreignOK_of_cover cfg _ _ _ _ (fun s hs _ _ _ _ => stateAfter_supprs_no_inline cfg analyze init pre hno s hs)
+  · simp [sameOK, hno f]
+  · simp [staleMacrosOK, ho.1]
+  · simp [staleRemarksOK, ho.2]
+
 /-- with the repaired file test an inline suppression (other than a macro suppression) hits only findings
     located in exactly the file it was written in -/
 theorem supprMatches_exact_file (s : Suppr) (x : Finding) (m : List Str)
@@ -199,6 +245,11 @@ private def cfg0 : Cfg Suppr := realCfg false true false []
 
 /-- the code before 8f62378: the duplicate filters were cleared on the normal exit only -/
 private def cfgOld : Cfg Suppr := realCfg false false false []
+
+/-- a non-trivial well-ordered trace without inline suppressions (remarks, macros, then two findings) -/
+example : ordered (⟨[.remarks [⟨"a.c".toList, 4, "why".toList⟩], .macros [(("a.c".toList, 4), ["DIV".toList])],
+    .report (mkF "zerodiv" "a.c" 4 "a.c:4:zerodiv"), .report (mkF "nullPointer" "a.c" 9 "a.c:9:nullPointer")], false⟩ : Trace Suppr) = true := by
+  decide
 
 /-- analyses as functions from a file name -/
 private def analyzeA : String → Trace Suppr
